@@ -367,8 +367,10 @@ any entry of time / leadtime / location / lat / lon / altitude / threshold / qua
 table, may be written in any encoding, and reads NaN (`datasetOf` maps a missing coordinate entry to NaN;
 nothing is invented in its place — in particular not unix time 0).  What a NaN coordinate means for the
 verification is `C10_missing_coordinate`.  (`datasetOf T` is also what the text reader must yield for a
-text file carrying `T`: C09 proves that for tables without missing coordinate entries; for a missing
-coordinate token the text reader deviates, see known_findings.txt.) -/
+text file carrying `T`: C09_roundtrip proves it for tables whose time / lead time / id entries are present, with
+lat / lon / elevation known or not — an unknown one reads NaN in both formats (`Spec.metaVal`); for a missing id / date
+token the model of the text reader gives NaN as well: `C09_missing_id_kept`, `C09_missing_date_nan`; the cross-format
+relation itself is checked on the real readers by stream nc.text.) -/
 theorem C10_same_dataset (L : NcLayout) (T : DenseTable) (hwf : T.WF) :
     (ncAssemble (toNcVars L T)).map NcInput.dataset = .ok (datasetOf T) := by
   have htime := var_time L T hwf
